@@ -68,6 +68,7 @@ type Client struct {
 	DeclareCL   bool      `json:"declare_cl,omitempty"`    // send Content-Length
 	ReadSplits  []int     `json:"read_splits,omitempty"`   // sizes of successive Read results
 	EOFWithData bool      `json:"eof_with_data,omitempty"` // final Read returns (n, io.EOF)
+	ReadChunk   int       `json:"read_chunk,omitempty"`    // cap on every Read result once the splits are used up
 	NoVersion   bool      `json:"no_version,omitempty"`    // connect GET: omit connect=v1 ... (only robustness)
 	GetBase64   bool      `json:"get_base64,omitempty"`    // connect GET: base64 even for text codecs
 	GetPadded   bool      `json:"get_padded,omitempty"`
@@ -78,6 +79,10 @@ type Client struct {
 	RawHeader []KV   `json:"raw_header,omitempty"`
 	RawBody   []byte `json:"raw_body,omitempty"`
 	UseRaw    bool   `json:"use_raw,omitempty"`
+	// Override replaces (or, with an empty value, removes) headers after encoding.
+	Override       []KV   `json:"override,omitempty"`
+	TargetOverride string `json:"target_override,omitempty"` // replaces the request-target
+	MethodOverride string `json:"method_override,omitempty"` // replaces the HTTP method
 }
 
 type Backend struct {
@@ -105,6 +110,9 @@ type Backend struct {
 	Fault        *Fault   `json:"fault,omitempty"`
 	ReadFirst    int      `json:"read_first,omitempty"` // respond after reading only this many bytes (0: read all)
 	WriteAfter   bool     `json:"write_after,omitempty"` // keep writing after the end
+	Override     []KV     `json:"override,omitempty"`    // replaces / removes response headers after building
+	WriteChunk   int      `json:"write_chunk,omitempty"` // cap on every Write once the splits are used up
+	ExplicitHead bool     `json:"explicit_head,omitempty"`
 }
 
 type Scenario struct {
@@ -224,6 +232,7 @@ type scriptBody struct {
 	splits      []int
 	pos         int
 	splitIdx    int
+	chunk       int
 	eofWithData bool
 	finalErr    error // returned instead of io.EOF at the end (e.g. unexpected EOF)
 	closed      bool
@@ -254,6 +263,9 @@ func (b *scriptBody) Read(p []byte) (int, error) {
 		return 0, nil
 	}
 	n := len(b.data) - b.pos
+	if b.chunk > 0 && n > b.chunk {
+		n = b.chunk
+	}
 	if b.splitIdx < len(b.splits) {
 		if s := b.splits[b.splitIdx]; s > 0 && s < n {
 			n = s
@@ -603,6 +615,9 @@ func runScenarioOn(sc *Scenario, shared *sharedTranscoder) *Outcome {
 	}
 	if body != nil && enc.BodyErr != nil {
 		body.finalErr = enc.BodyErr
+	}
+	if body != nil {
+		body.chunk = sc.Client.ReadChunk
 	}
 	out.Body = body
 	var handler http.Handler
